@@ -310,9 +310,11 @@ def run_P(spec, ctx):
                     ctx.traces += 1
             else:
                 ctx.count("P:haplobin-cases-violating-a-law")
-    if a == 0:
-        lo = Layout(layouts(lens)[len(layouts(lens)) // 2], seed)
-        ctx.sample(dict(layer="P", positions=[lo.genpos[x:y].tolist() for x, y in zip(lo.st, lo.sp)],
+    if a == 0 and lens in ((4,), (2, 3)):
+        lo = Layout(layouts(lens)[len(layouts(lens)) // 3], seed)
+        nh = tuple(max(1, L - 1) for L in lens)
+        ctx.sample(dict(layer="P", positions=[lo.genpos[x:y].tolist() for x, y in zip(lo.st, lo.sp)], blocks_per_chromosome=list(nh),
+                        haplobin=LH.haplobin(numpy.array(nh), lo.genpos, lo.stix, lo.spix).tolist(),
                         note="every total and every per-chromosome block vector was run on this and every other layout of these sizes"))
 
 
